@@ -126,9 +126,11 @@ def run(tier, seed):
     rng = ck.rng
     n = 250 if tier == "quick" else 4000
     canon = []
+    model_progs = []
     for i in range(n):
         prog, _ = P.gen_program(rng, rng.randint(1, 7), max_depth=4, p_bad=0.0)
         t = P.prog_text(prog)
+        model_progs.append((prog, t))
         if rng.random() < 0.5:
             t += "\n".join(rng.sample(LITERALS, rng.randint(1, 4))) + "\n"
         canon.append(t)
@@ -211,6 +213,39 @@ def run(tier, seed):
                 continue
             if profile.startswith("file:"):
                 stats["files_fixed_point"] += 1
+    # ---- correspondence with the Coq model (print/Print.v, extracted): the printer byte for byte on comment-free programs,
+    # and the tokenizer's comment map on the laid-out texts
+    corr = []
+    okm, mmsg = C.build_model_runner()
+    npp = ncm = 0
+    if not okm:
+        broken.append({"extraction": mmsg[-1500:]})
+    else:
+        sub = [(p, t) for p, t in model_progs if "%" not in t]          # template text is canonicalised by the model: compared separately
+        mo = C.model("print_pp", ["(2 (%s))" % " ".join(P.stmt_sexp(x) for x in p) for p, _ in sub])
+        ro = C.harness("fmt", [t for _, t in sub])
+        for (p, t), m, r in zip(sub, mo, ro):
+            if "ok" not in r or not m.startswith("x"):
+                continue
+            npp += 1
+            if C.unhex(m).decode("utf-8", "replace") != r["ok"].get("utf8"):
+                corr.append({"source": t, "why": "the printer model and AstPrinter write different text", "model": C.unhex(m).decode("utf-8", "replace")[:400],
+                             "printer": (r["ok"].get("utf8") or "")[:400], "correspondence": "print/Print.v pp_stmts vs AstPrinter::render"})
+        cm_texts = [c[0] for c in cases if c[1]][: (300 if tier == "quick" else 3000)]
+        mcm = C.model("print_cmap", [C.hexs(t) for t in cm_texts])
+        rcm = C.harness("tokens_cm", cm_texts)
+        import sx
+        for t, m, r in zip(cm_texts, mcm, rcm):
+            if "cm" not in r or m == "err" or m.startswith("error"):
+                continue
+            ncm += 1
+            want = [[k, [f[1] for f in grp]] for k, grp in r["cm"]]
+            got = [[int(g[0]), [C.unhex(f).decode("utf-8", "replace") for f in g[1]]] for g in sx.parse(m)]
+            if got != want:
+                corr.append({"source": t, "why": "the comment map of the model differs from the tokenizer's", "model": got, "tokenizer": want,
+                             "correspondence": "print/Print.v comment_map_of vs tokenize(.., Some(map))"})
+    cov["model_printer_outputs_compared"] = npp
+    cov["model_comment_maps_compared"] = ncm
     cov["evaluations"] = len(cases)
     cov["distinct_nontrivial"] = len(set(texts))
     cov["rule"] = ("programs of the C01 generator plus a pool of literal forms (floats with zero fraction, very large/small floats, ranges with a step, "
@@ -232,6 +267,10 @@ def run(tier, seed):
         for r in real:
             by[r["why"][:70]] = by.get(r["why"][:70], 0) + 1
         ck.violation({"kind": "ucg fmt changed a program or its comments", "failing": r0, "more": len(real) - 1, "by_kind": by, "broken": broken})
+    elif corr:
+        r0 = min(corr, key=lambda r: len(r["source"]))
+        ck.violation({"kind": "the printer model no longer corresponds to the printer; no input was found on which ucg fmt contradicts the property",
+                      "failing": r0, "more": len(corr) - 1, "broken": broken}, nofail=True)
     elif broken:
         ck.violation({"kind": "proof obligation no longer checks", "broken": broken, "theorems": thms}, nofail=True)
     return ck.finish()
